@@ -26,6 +26,7 @@ import time
 
 import vlib
 import futex_sched as fs
+import futex_history as fh
 import opmods
 from common import prove, leanchecker
 from vlib import log
@@ -34,6 +35,10 @@ PROP = "C17"
 MODULES = ["W2c2Verif.Props.C17"]
 GENS = []
 FUTEXDRIVER = os.path.join(vlib.LEAN, ".lake", "build", "bin", "futexdriver")
+
+class SpecMismatch(Exception):
+    pass
+
 
 OFFSET_KEY = "wait-static-offset-dropped"
 
@@ -95,7 +100,7 @@ def parse_ops(threads):
 
 # ----------------------------------------------------------------------------- property oracles on REAL outcomes
 
-def real_oracles(threads, r):
+def real_oracles(threads, r, init=None):
     """Property violations visible in one real execution `r` (dict from the harness).  Returns [(key, what)]."""
     bad = []
     san = r.get("san", "none")
@@ -149,6 +154,14 @@ def real_oracles(threads, r):
             op = ops[ti][k] if k < len(ops[ti]) else None
             if not op or op[0] != "wait" or op[3] >= 0:
                 bad.append(("futex-deadlock", f"thread {ti + 1} is blocked forever in {op} ({r.get('detail', '')})"))
+    # no linearisation of the observed operations in the specification's transition system explains the outcome
+    if init is not None and not bad and fh.explain(init, threads, r) is False:
+        bad.append(("futex-history-not-linearisable",
+                    "no order of the atomic points of these operations (check-and-enqueue of a wait, notify, store, timeout) "
+                    "inside their invocation/response windows is a run of the specification — e.g. a notify returned fewer than n "
+                    "although a waiter had passed its value check and then blocks (lost wake-up).  Model side: contradicts "
+                    "C17.no_lost_wakeup / C17.blocked_waiter_visible, whose proof rests on C17.wait_load_locked (Inv.a.mutex_iff at "
+                    "pc wLoad: the comparison is made while holding the memory's mutex).  History: " + fh.describe(init, threads, r)))
     return bad
 
 
@@ -222,6 +235,9 @@ def run(tier):
         for (init, ths) in small:
             lines.append(f"dfs 1 {init} {ths} 40 1 {dfs_runs} 1")
             meta.append((init, ths))
+        for (init, ths) in DIRECTED:
+            lines.append(f"dfs 1 {init} {ths} 40 1 {600 if quick else 6000} 1")
+            meta.append((init, ths))
         # notify on a non-shared memory returns 0 without touching the map
         for (init, ths) in scen[:10]:
             lines.append(f"seed 0 {init} {ths} {chk.rng.randrange(1 << 30)} 0 30")
@@ -263,7 +279,7 @@ def run(tier):
             hist["steps"][len(toks) // 10 * 10] = hist["steps"].get(len(toks) // 10 * 10, 0) + 1
             hist["spurious"] += sum(1 for t in toks if t.endswith("s"))
             hist["timeouts"] += sum(1 for t in toks if t.endswith("t"))
-            for (k2, w) in real_oracles(ths, r) if sh == "1" else []:
+            for (k2, w) in real_oracles(ths, r, init) if sh == "1" else []:
                 chk.violation(k2, w, {"kind": "sched", "B": B, "shared": sh, "init": init, "threads": ths,
                                       "schedule": r.get("sched"), "real": r,
                                       "replay_cmd": "python3 tools/check.py C17 --replay <this file>"}, True)
@@ -310,6 +326,32 @@ def run(tier):
                                   f"wait/notify through w2c2+gcc+futex.c (static offset {o}) misbehave: observed vs required {wrong}",
                                   {"kind": "e2e-offset", "offsets": [o], "observed": got, "required": fs.E2E_EXPECT,
                                    "emitted": stmts, "replay_cmd": "python3 tools/check.py C17 --replay <this file>"}, True)
+            # directed single-thread cases through the real translator output, expected codes from V8 and the specification
+            w_offs = sorted({0, 8, chk.rng.choice([16, 64, 1000, 4096])})
+            w_wasm = fs.wait_cases_module(w_offs)
+            w_cases = fs.directed_wait_calls(chk.rng, w_offs, 6 if quick else 40)
+            w_v8 = fs.v8_wait_cases(w_wasm, w_cases)
+            w_real, w_ctext = fs.run_wait_cases(repo, os.path.join(d, "wc"), w2c2, w_wasm, w_cases)
+            w_hist = {}
+            for ci, ((dsc, calls), want) in enumerate(zip(w_cases, w_v8)):
+                got = w_real[ci] if ci < len(w_real) else None
+                chk.count_case(("e2e-wait", dsc["op"], dsc["offset"], dsc["cell"], dsc["expect"], dsc["timeout"]), True,
+                               {"case": dsc, "real": got, "v8": want} if ci % 40 == 0 else None)
+                w_hist[dsc["op"] + "/" + dsc["kind"]] = w_hist.get(dsc["op"] + "/" + dsc["kind"], 0) + 1
+                if want != dsc["spec"]:
+                    raise SpecMismatch(f"SPEC-MISMATCH: V8 returns {want} for {dsc}, the specification model {dsc['spec']}")
+                if got != want:
+                    key = ("wait64-compares-32-bits" if dsc["op"] == "wait64" and dsc["kind"] == "high-only-differs"
+                           else f"wait-e2e-return-code-{dsc['op']}-{dsc['kind']}")
+                    stmts = [st for _, st in fs.emitted_calls(w_ctext) if ("Wait(" in st) == (dsc["op"] != "notify")]
+                    chk.violation(key,
+                                  f"{dsc['op']} offset={dsc['offset']} on cell 0x{dsc['cell']:016x} with expected 0x{dsc['expect']:016x}, "
+                                  f"timeout {dsc['timeout']} ns ({dsc['kind']}): the code translated by w2c2 returns {got}, "
+                                  f"V8 and the specification return {want}",
+                                  {"kind": "e2e-wait", "case": dsc, "calls": [[n.decode(), a] for n, a in calls], "offsets": w_offs,
+                                   "observed": got, "required": want, "emitted": stmts[:12],
+                                   "replay_cmd": "python3 tools/check.py C17 --replay <this file>"}, True)
+            chk.coverage["e2e_wait_cases"] = {"cases": len(w_cases), "kinds": w_hist, "offsets": w_offs}
             # emit-tokens over random offsets and stack depths
             n_emit = 12 if quick else 60
             emit_bad = []
@@ -337,6 +379,8 @@ def run(tier):
             if emit_bad:
                 broken.append({"kind": "correspondence", "msg": "emit-tokens: wait/notify statement text differs from Futex.Emit",
                                "first": emit_bad[:4]})
+        except SpecMismatch:
+            raise                              # our specification model disagrees with V8: tool failure (exit 2), not a violation
         except Exception as e:
             broken.append({"kind": "e2e-build", "msg": str(e)[-1500:]})
         # ---------------------------------------------------------------- search on break
@@ -361,6 +405,17 @@ def run(tier):
     return chk.finish()
 
 
+# check-then-enqueue window: the notifier's store + notify may run anywhere relative to the waiter's steps; explored by DFS
+# in every tier (the waiter's first mutex acquisition is the scheduling point the explorer delays)
+DIRECTED = [
+    ("16:4:5", "w32:16:5:-1|s:16:4:9,n:16:1"),
+    ("16:4:5,20:4:1", "w64:16:4294967301:-1|s:16:4:9,n:16:1"),
+    ("16:4:5", "w32:16:5:1000|s:16:4:9,n:16:1"),
+    ("16:4:5", "w32:16:5:-1|w32:16:5:-1|s:16:4:9,n:16:2"),
+    ("16:4:5,1040:4:5", "w32:16:5:-1|w32:1040:5:-1|s:16:4:9,n:16:1,s:1040:4:9,n:1040:1"),
+    ("16:4:5", "w32:16:5:-1,w32:16:9:-1|s:16:4:9,n:16:1,s:16:4:5,n:16:1"),
+]
+
 CANONICAL = [
     ("16:4:0", "w32:16:0:-1|n:16:1"),
     ("16:4:0", "w32:16:0:-1|w32:16:0:-1|n:16:1,n:16:1"),
@@ -382,7 +437,7 @@ def search_on_break(chk, exe, B, mismatches, driver_ok):
                 continue
             explored += 1
             r = fs.parse_reply(g)
-            for (k2, w) in real_oracles(ths, r):
+            for (k2, w) in real_oracles(ths, r, init):
                 chk.violation(k2, w, {"kind": "sched", "B": B, "shared": "1", "init": init, "threads": ths,
                                       "schedule": r.get("sched"), "real": r,
                                       "replay_cmd": "python3 tools/check.py C17 --replay <this file>"}, True)
@@ -404,7 +459,7 @@ def search_on_break(chk, exe, B, mismatches, driver_ok):
             groups = fs.run_lines(exe, lines, timeout=600)
             for (init, ths, kind, sched), grp in zip(cands, groups):
                 r = fs.parse_reply(grp[0]) if grp else {}
-                for (k2, w) in real_oracles(ths, r):
+                for (k2, w) in real_oracles(ths, r, init):
                     chk.violation(k2, w + f" (model candidate `{kind}`)",
                                   {"kind": "sched", "B": B, "shared": "1", "init": init, "threads": ths,
                                    "schedule": r.get("sched"), "real": r}, True)
@@ -457,12 +512,20 @@ def replay(path):
                 print(f"replay e2e-offset {o}: observed {got}, required {fs.E2E_EXPECT}" + (f"  WRONG: {wrong}" if wrong else "  ok"))
                 bad = bad or bool(wrong)
             return 1 if bad else 0
+        if r.get("kind") == "e2e-wait":
+            w2c2 = opmods.build_w2c2(repo, d)
+            wasm = fs.wait_cases_module(r["offsets"])
+            calls = [(n.encode(), [tuple(x) for x in a]) for n, a in r["calls"]]
+            out, _ = fs.run_wait_cases(repo, os.path.join(d, "wc"), w2c2, wasm, [(r["case"], calls)])
+            got = out[0] if out else None
+            print(f"replay e2e-wait {r['case']}: real {got}, required {r['required']}")
+            return 0 if got == r["required"] else 1
         if r.get("kind") == "sched":
             exe = fs.build(repo, d, asan=True)
             ln = f"sched {r['shared']} {r['init']} {r['threads']} " + (r.get("schedule") or "").replace(",", " ")
             grp = fs.run_lines(exe, [ln])[0]
             rr = fs.parse_reply(grp[0]) if grp else {}
-            bad = real_oracles(r["threads"], rr)
+            bad = real_oracles(r["threads"], rr, r.get("init"))
             print(f"replay `{ln[:300]}`\n  -> {grp[0] if grp else None}\n  oracles: {bad}")
             return 1 if bad else 0
     print("nothing to replay on the implementation (proof/tie breakage without a failing input): " + str(r.get("broken", ""))[:600])
